@@ -90,7 +90,8 @@ def make_inputs(rng, n):
             # texts that differ only in white space *inside a string literal*, or by an exotic blank next to an
             # ordinary one: different inputs (different value / ill-formed) that a careless normalisation would merge
             group = []
-            for inner in rng.sample(('a b', 'a  b', 'a\tb', 'a\xa0b', 'a b ', ' a b', 'ab'), 3):
+            for inner in rng.sample(('a b', 'a  b', 'a\tb', 'a\xa0b', 'a b ', ' a b', 'ab', 'C:\\data\\logs', '50\\% done',
+                                     '\\x41', 'caf\\u00e9', 'a\\ b', 'q\\'), 3):
                 lit = '"' + inner + '"'
                 if level in ('specification', 'property'):
                     body = toks
